@@ -41,16 +41,75 @@ def global_literal(prog, rel, name):
     m = prog.mod(rel)
     if name not in m.globals:
         raise Undecided("module-level table vanished: %s" % name, m.relpath)
-    return literal(m, m.globals[name])
+    try:
+        return literal(m, m.globals[name])
+    except Undecided as first:
+        # a table computed from other tables at import time: folded by the evaluator
+        try:
+            return fold_global(prog, rel, name)
+        except Undecided as e:
+            raise Undecided("%s; folding %s: %s" % (first.msg, name, e.msg), e.where or first.where)
 
 
 _ARITH = {ast.Add: lambda a, b: a + b, ast.Sub: lambda a, b: a - b,
           ast.Mult: lambda a, b: a * b, ast.Div: lambda a, b: a / b}
 
 
+def _unwrap(v):
+    """folded evaluator value -> the python value TAB's clients expect (exact Fractions for numbers)"""
+    from .alg import Rat
+    if isinstance(v, Rat):
+        if not v.is_const():
+            raise Undecided("folded table entry is not a constant: %r" % v)
+        return v.const_value()
+    if isinstance(v, dict):
+        return {k: _unwrap(x) for k, x in v.items()}
+    if isinstance(v, list):
+        return [_unwrap(x) for x in v]
+    if isinstance(v, tuple):
+        return tuple(_unwrap(x) for x in v)
+    if isinstance(v, (str, int, bool, Fraction)) or v is None:
+        return v
+    raise Undecided("folded value %r is not table data" % (v,))
+
+
+def fold_function(prog, f):
+    """a table function that is not written in one of the idioms below: constant folding of its body by the evaluator (SYM), which
+    must come out as one path returning concrete data"""
+    from .sym import Evaluator, _is_concrete
+    ev = Evaluator(prog)
+    paths = ev.run_function(f, {})
+    if len(paths) != 1 or paths[0].kind != "return" or paths[0].conds or not _is_concrete(paths[0].value):
+        raise Undecided("%s does not fold to one table" % f.qual, f.loc())
+    return _unwrap(paths[0].value)
+
+
+def fold_global(prog, rel, name):
+    from .sym import Evaluator, _Frame
+    from .model import FuncInfo
+    m = prog.mod(rel)
+    ev = Evaluator(prog)
+    pseudo = ast.FunctionDef(name="<module>", args=ast.arguments(posonlyargs=[], args=[], kwonlyargs=[], kw_defaults=[], defaults=[]), body=[], decorator_list=[],
+                             lineno=getattr(m.globals[name], "lineno", 1), col_offset=0)
+    return _unwrap(ev.global_value((m, name), _Frame(FuncInfo(m, None, pseudo), 0), m.globals[name]))
+
+
 def table_from_func(prog, rel, fname, _depth=0):
     """value of a table-returning function: `return {literal}` or the derived-table idiom
-        src = other(); out = {}; for k in src: out[k] = src[k] <op> const; return out"""
+        src = other(); out = {}; for k in src: out[k] = src[k] <op> const; return out
+    anything else is folded by the evaluator"""
+    try:
+        return _table_from_func(prog, rel, fname, _depth)
+    except Undecided as first:
+        if _depth > 4:
+            raise
+        try:
+            return fold_function(prog, prog.fn(rel, fname))
+        except Undecided as e:
+            raise Undecided("%s; folding %s: %s" % (first.msg, fname, e.msg), e.where or first.where)
+
+
+def _table_from_func(prog, rel, fname, _depth=0):
     if _depth > 4:
         raise Undecided("table derivation too deep", fname)
     f = prog.fn(rel, fname)
